@@ -530,8 +530,18 @@ static void do_addcal(ctx_t *c, int nm, int k)
     }
     int before = c->elog.nonwarn;
     c->issued = 1;
+    /* when the name is in use, hand over the pointer the library itself
+       returns for it (refreshing a slot in place): the stored name must be
+       copied before the calibration that owns it is released */
+    const char *nmptr = names[nm];
+    for (int j = 0; j < MAXCI; ++j)
+	if (m->cal[j].live && m->cal[j].name == nm) {
+	    const char *lib = vnacal_get_name(c->vcp, j);
+	    if (lib != NULL && strcmp(lib, names[nm]) == 0)
+		nmptr = lib;
+	}
     errno = 0;
-    int ci = vnacal_add_calibration(c->vcp, names[nm], c->vnp[k]);
+    int ci = vnacal_add_calibration(c->vcp, nmptr, c->vnp[k]);
     int e = errno;
     ++c->r->transitions;
     if (!m->vn[k].pending) {
